@@ -11,7 +11,10 @@ at the extreme values of every numeric kind, with exact decimal digits), spec/Na
 (histories of Execute calls on ONE Interpreter: the set-up verdict is a function of the Funcs value given to the call;
 the variant that allocates the table before checking is refuted by TLC), Gen_Native ((signature, arguments, CONVFMT, shadowed name) cases with the predicted
 outcome), Trace_Native (multi-function tables and multi-call programs recorded from the real interpreter, validated
-by TLC with the same operators).
+by TLC with the same operators).  spec/NativeProgram.tla + MC_NativeProgram: calls inside whole programs -- the call
+written in every syntactic position (an error aborts the run there; refuted when the error of a range pattern's stop
+expression is dropped) and results that are kept while the Go function reuses its memory (a result is a value; refuted
+when the AWK value aliases the Go slice); exported as families "position" and "keep", recorded as events pos / keep.
 """
 import copy, json, os, re
 from vlib import MachineryError
@@ -20,6 +23,31 @@ from vlib import MachineryError
 def corrupt(case, rnd):
     """Make the predicted observation wrong in a compared place."""
     c = copy.deepcopy(case)
+    if c.get('fam') == 'position':
+        # the run goes on where it must abort (or the reverse); or the END marker / the call count is another
+        o = c['outcome']
+        pick = rnd.random()
+        if pick < 0.4:
+            o['o'] = 'ok' if o['o'] == 'abort' else 'abort'
+        elif pick < 0.7:
+            o['endmark'] = not o['endmark']
+        elif pick < 0.85 or not o['afterJudged']:
+            o['calls'] += 1
+        else:
+            o['after'] = not o['after']
+        return c
+    if c.get('fam') == 'keep':
+        # one kept result is another text (e.g. what a LATER call returned), or one result more / less
+        kept = c['outcome']['kept']
+        j = rnd.randrange(len(kept))
+        other = [k for k in kept if k['val'] != kept[j]['val']]
+        if c['hold'] != 'subscript' and other and rnd.random() < 0.6:
+            kept[j]['val'] = rnd.choice(other)['val']
+        elif c['hold'] == 'subscript' and rnd.random() < 0.6:
+            kept[j]['key'] += '0'
+        else:
+            kept[j]['val'] += 'z'
+        return c
     if c.get('fam') == 'session':
         # one Execute call of the history: a rejected set-up predicted as a run, or a corrected run's prediction changed
         j = rnd.randrange(len(c['runs']))
@@ -89,6 +117,18 @@ def corrupt(case, rnd):
 
 def corrupt_event(ev, rnd):
     e = copy.deepcopy(ev)
+    if e.get('op') == 'pos':                         # the run went on after the error / the END marker was (not) printed
+        if rnd.random() < 0.5:
+            e['endmark'] = not e['endmark']
+        else:
+            e['o'] = 'ok' if e['o'] == 'abort' else 'abort'
+            e['own'] = True
+        return e
+    if e.get('op') == 'keep':                        # a kept result printed as something else
+        if not e['kept']:
+            return None
+        e['kept'][rnd.randrange(len(e['kept']))]['val'] += '#'
+        return e
     if e.get('o') == 'ok' and e.get('sig', {}).get('res') == 'ext':
         e['xnum']['neg'] = not e['xnum']['neg']     # an extreme result: the printed text is not pinned down, the number is
         return e
@@ -133,7 +173,12 @@ def run(ctx):
                 'other Go functions and fn; random signatures of 0-3 '
                 'parameters with 0..n+2 arguments, any CONVFMT and shadow (-simulate); or one recorded run over a table of '
                 '2-5 recording functions (one possibly shadowed by an AWK function, CONVFMT possibly changed) '
-                'making 3-6 calls; distinct by content; non-trivial when a conversion, a zero-fill, a rejection or an abort '
+                'making 3-6 calls; the one call of a program written in each of 13 syntactic positions (BEGIN, action, pattern, '
+                'start and stop expression of a range pattern, function body, END, file name of a getline, condition, subscript, '
+                'argument of a builtin / an AWK function / printf) x no / one parameter x 5 result kinds x every error mode; 2-3 '
+                '(recorded: 2-5) calls of fn(string) []byte / string whose results are kept in variables / array elements / fields '
+                '/ as array subscripts while the Go function returns fresh memory, overwrites one buffer, or wipes what it '
+                'returned before; distinct by content; non-trivial when a conversion, a zero-fill, a rejection or an abort '
                 'is exercised')
     ctx.assumptions += [
         'argument menu: 3, -3, 2.5, 300, 1000000, 0, "abc", "12", "0", "", numeric strings 12 and 0 from input, an unset '
@@ -164,6 +209,16 @@ def run(ctx):
         'documented use and not generated',
         'rejections are compared as a class (parse error / set-up error), never by message; the aborting error is '
         'compared by identity (==) with the value the function returned',
+        'call positions: the input is one record, the call is evaluated once; judged are the outcome class, the identity of '
+        'the error Execute returns, the number of calls, that the END marker (END { print "E:end" }, the last thing a '
+        'complete run does) is printed exactly when there is no error, and that the statement written after the call ran '
+        'or not -- except for the stop expression of a range pattern, whose order relative to the action of the same record '
+        'is not stated; print/getline forms that create files or start commands are not generated (the getline reads a '
+        'file that does not exist)',
+        'kept results: "returns the converted result" is read as: the AWK value is the string form of the bytes the '
+        'function returned when it returned -- a value; what the function later does with that memory (reuse, wiping) must '
+        'not show in AWK variables, array elements, fields or array subscripts; a Go function that modifies its []byte '
+        'ARGUMENT is not generated',
         'a non-function value or nil in Funcs is outside the statement ("functions of any other shape") and not generated: '
         'observed by hand, a non-function value that the program calls makes the PARSER panic in reflect '
         '(resolve.go:474 typ.NumIn()), and nil makes checkNativeFunc dereference a nil reflect.Type at set-up',
@@ -181,6 +236,15 @@ def run(ctx):
         bad = ctx.cfg('MC_NativeSession', name='MC_NativeSession_slip', constants=dict(Slip='"alloc-before-check"', MaxRuns=3))
         expect_refuted(ctx, 'MC_NativeSession', bad, ('EveryBadRunRejected', 'NeverRunsOnPartialTable', 'VerdictIsFunctionOfFuncs',
                                                       'FixedRunLikeFresh'), timeout=900, workers=1)
+        # calls inside whole programs: an error aborts the run in every position; kept results never change ...
+        mp = ctx.cfg('MC_NativeProgram', constants=dict(MaxCalls=3 if q else 4))
+        ctx.tlc('MC_NativeProgram', mp, timeout=900, workers=min(2, ctx.cores))
+        # ... refuted when the error of a call in the stop expression of a range pattern is not looked at, and when the
+        # AWK value shares the memory of the Go result
+        bad = ctx.cfg('MC_NativeProgram', name='MC_NativeProgram_drop', constants=dict(DropIn='{"range-stop"}', MaxCalls=2))
+        expect_refuted(ctx, 'MC_NativeProgram', bad, ('AbortsEverywhere', 'PosMachineIsOutcome'), timeout=900, workers=1)
+        bad = ctx.cfg('MC_NativeProgram', name='MC_NativeProgram_alias', constants=dict(Alias='TRUE', MaxCalls=2))
+        expect_refuted(ctx, 'MC_NativeProgram', bad, ('ResultsAreValues', 'KeepMachineIsOutcome'), timeout=900, workers=1)
     g = ctx.cfg('Gen_Native', name='Gen_Native_small', constants=dict(Family='"small"'))   # args + results + invalid + strform + dispatch
     ctx.tlc('Gen_Native', g, capture='cases.ndjson', timeout=1500, heap='8g')
     if not q:   # every pair of parameter kinds, every result shape behind a valid / an invalid parameter, longer histories
@@ -199,12 +263,14 @@ def run(ctx):
                     f.write(line)
         ctx.selftest(ctx.path(f'cases_{label}.ndjson'), 'C17', corrupt, label)
     # ... and on the families of the second extension: extreme results, shapes built from parts, sessions
+    # ... and of the third: calls inside whole programs (positions, kept results)
     for label, key, least in (('gen-native-extreme', '"res":"ext"', 100), ('gen-native-shapes', '"shape":"gen"', 1000),
-                              ('gen-native-session', '"fam":"session"', 300)):
+                              ('gen-native-session', '"fam":"session"', 300), ('gen-native-position', '"fam":"position"', 300),
+                              ('gen-native-keep', '"fam":"keep"', 1000)):
         n = 0
         with open(ctx.path(f'cases_{label}.ndjson'), 'w') as f:
             for line in open(ctx.path('cases.ndjson')):
-                if key in line and (label == 'gen-native-session' or '"fam":"native"' in line):
+                if key in line and (key.startswith('"fam"') or '"fam":"native"' in line):
                     f.write(line)
                     n += 1
         ctx.cov[label.replace('gen-native-', '') + '_cases'] = n
@@ -218,6 +284,16 @@ def run(ctx):
     for r in rejects:
         ev = r['trace'][r['pos']]
         exp = (r['info'] or {}).get('expected', {})
+        if ev.get('op') in ('pos', 'keep'):
+            if ev['op'] == 'pos':
+                sig = f"C17/position/recorded/{'panic' if ev.get('o') == 'panic' else 'spec-' + str(exp.get('o')) + '-real-' + str(ev.get('o'))}/{ev.get('pos')}"
+                case = dict(fam='position', sig=ev['sig'], args=ev['args'], pos=ev['pos'], outcome=exp)
+            else:
+                sig = f"C17/keep/recorded/{'panic' if ev.get('o') == 'panic' else 'result-changed-after-return'}/{ev.get('rk')}-{ev.get('policy')}/{ev.get('hold')}"
+                case = dict(fam='keep', rk=ev['rk'], policy=ev['policy'], hold=ev['hold'], args=ev['args'], outcome=exp)
+            ctx.add_failure(sig, f'recorded program rejected by Trace_Native at event {r["line"]}', case=case, expected=exp,
+                            observed={k: ev.get(k) for k in ('o', 'calls', 'after', 'endmark', 'own', 'kept', 'panic', 'err')}, program=ev.get('src'))
+            continue
         if ev.get('o') == 'panic':
             sig = 'C17/panic/recorded'
         elif ev.get('o') != exp.get('o'):
